@@ -98,7 +98,7 @@ claims.update({
 claims.update({
  'C16': ('other', 'two-generation discipline of SafeMap on all paths, LRU coherence rules, Cache API path rules and lock guards, decision table + algebraic normal forms of the rolling window',
    'SafeMap.Set writes one generation only after removing the key from the other; Get/Range/Size consult both; Del removes from the holding generation; migrations copy every entry before the source is replaced; keyLru.add moves a known key to the front / pushes a new one and evicts the back when the list outgrew the limit; removeElement unlinks, forgets, calls onEvict; Cache.Del removes data, LRU entry and timer; SetWithExpire stores, refreshes the LRU position unconditionally and sets/moves the timer by prior presence; Take fetches only inside the single flight after a second miss, caches only success; RollingWindow span table (9 orderings), offset advance (offset+span)%size, lastTime re-aligned to the last interval boundary <= now, Reduce range; all under their locks.',
-   'Not decided: equivalence to sequential reference models over operation sequences; Ring index arithmetic; expiry timing. Queue growth/wrap arithmetic is decided structurally (R6).',
+   'Not decided: equivalence to sequential reference models over operation sequences; expiry timing. Queue growth/wrap arithmetic (R6) and the store/read positions of Ring (R8) are decided structurally.',
    'DESIGN.md 3.C16'),
 })
 claims.update({
